@@ -16,6 +16,12 @@ def decide(ctx, spec_module, cases, trace_file, failed, validated, level_note, r
     infra = [(i, r) for i, why in failed.items() for r in why if r.startswith("INFRA:")]
     if infra:
         raise Infra("specification reported infrastructure errors, e.g. case %s: %s" % infra[0])
+    hist = {}
+    for i, why in failed.items():
+        for r in why:
+            hist.setdefault(r, []).append(i)
+    for r, ids in sorted(hist.items(), key=lambda x: -len(x[1]))[:12]:
+        log("  spec rejects %d cases (e.g. %d): %s%s" % (len(ids), ids[0], r, "" if r.startswith(prop + ":") else "   [other property]"))
     mine = {i: own_reasons(prop, why) for i, why in failed.items()}
     mine = {i: w for i, w in mine.items() if w}
     by_id = {c["id"]: c for c in cases}
